@@ -119,6 +119,9 @@ func agrees(f formats.Format, in []byte) string {
 		if typ != formats.SPDXFORMAT {
 			return "text encoding reported for type " + typ
 		}
+		if d.isObject {
+			return "a tag-value format was reported for an input that is a JSON object: its top-level declaration is its members, whatever its strings contain"
+		}
 		if !bytes.Contains(in, []byte("SPDXVersion:")) {
 			return "tag-value SPDX reported but the input has no SPDXVersion tag"
 		}
@@ -459,13 +462,17 @@ func declarationCube(c *engine.Ctx) {
 	bom := []string{"", "null", "7", `"cyclonedx"`, `"CycloneDX "`, `"CycloneDX"`, `"SPDX"`}
 	spec := []string{"", "null", "1.5", `"1.6"`, `"1.50"`, `"1.3"`, `"1.4"`, `"1.5"`, `"1.2"`, `" 1.5"`}
 	spdx := []string{"", "null", "2.3", `"SPDX-2.4"`, `"SPDX-2.3 "`, `"spdx-2.3"`, `"SPDX-2.3"`, `"SPDX-2.2"`, `"2.3"`}
-	c.Bound("declaration-cube", fmt.Sprintf("%d x %d x %d values of bomFormat / specVersion / spdxVersion (absent, null, number, near misses, correct), members in two orders", len(bom), len(spec), len(spdx)))
+	c.Bound("declaration-cube", fmt.Sprintf("%d x %d x %d values of bomFormat / specVersion / spdxVersion (absent, null, number, near misses, correct), members in two orders, other string members plain / carrying declaration text of either format / spread over physical lines", len(bom), len(spec), len(spdx)))
 	for _, b := range bom {
 		for _, s := range spec {
 			for _, x := range spdx {
-				for order := 0; order < 2; order++ {
-					b, s, x, order := b, s, x, order
-					c.Case(func() any { return map[string]any{"bomFormat": b, "specVersion": s, "spdxVersion": x, "order": order} }, func(t *engine.T) *engine.Violation {
+				for ot := 0; ot < 6; ot++ {
+					// order of the members x what the other string members say: nothing / the tag-value declaration text inside
+					// a string (one physical line) / spread over two physical lines of a pretty-printed document
+					b, s, x, order, text := b, s, x, ot%2, ot/2
+					c.Case(func() any {
+						return map[string]any{"bomFormat": b, "specVersion": s, "spdxVersion": x, "order": order, "other-members": []string{"plain", "tag-value text in a string", "tag-value text over two lines"}[text]}
+					}, func(t *engine.T) *engine.Violation {
 						var members []string
 						if b != "" {
 							members = append(members, `"bomFormat":`+b)
@@ -476,13 +483,22 @@ func declarationCube(c *engine.Ctx) {
 						if x != "" {
 							members = append(members, `"spdxVersion":`+x)
 						}
-						members = append(members, `"name":"n"`, `"packages":[]`, `"components":[]`)
+						sep := ","
+						switch text {
+						case 0:
+							members = append(members, `"name":"n"`, `"packages":[]`, `"components":[]`)
+						case 1:
+							members = append(members, `"name":"SPDXVersion: SPDX-2.3"`, `"comment":"\"bomFormat\": \"CycloneDX\", \"specVersion\": \"1.5\""`, `"packages":[]`)
+						default:
+							sep = ",\n"
+							members = append(members, `"description":"SPDXVersion: SPDX-2.1"`, `"note":"SPDX-2.3"`, `"components":[]`)
+						}
 						if order == 1 {
 							for i, j := 0, len(members)-1; i < j; i, j = i+1, j-1 {
 								members[i], members[j] = members[j], members[i]
 							}
 						}
-						in := []byte("{" + strings.Join(members, ",") + "}")
+						in := []byte("{" + strings.Join(members, sep) + "}")
 						f, err, v := sniffAll(t, in)
 						if v != nil {
 							return v
